@@ -41,6 +41,32 @@ class M(Model):
     def legal(self, s):
         return np.array([self._is_legal(s, a) for a in range(4)])
 
+    # ---- constructive moves for the 'solve' plan mode: follow a Hamiltonian cycle of the board (exists when a
+    # side is even); the snake then never dies and eventually fills the board (the documented winning end)
+    def solve_action(self, s, r=0):
+        R, C = self.R, self.C
+        hr, hc = self._head(s)
+        if R % 2 == 0:
+            rr, cc, RR, CC, tr = hr, hc, R, C, False
+        elif C % 2 == 0:
+            rr, cc, RR, CC, tr = hc, hr, C, R, True      # transpose: walk the cycle of the transposed board
+        else:
+            return None
+        if CC == 1:
+            return None
+        if cc == 0:
+            mv = (0, 1) if rr == 0 else (-1, 0)
+        elif rr % 2 == 0:
+            mv = (0, 1) if cc < CC - 1 else (1, 0)
+        elif rr == RR - 1:
+            mv = (0, -1)
+        else:
+            mv = (0, -1) if cc > 1 else (1, 0)
+        if tr:
+            mv = (mv[1], mv[0])
+        a = MOVES.index(mv)
+        return a if self._is_legal(s, a) else None
+
     def reacted_invalid(self, s, a, s2, ts2, agent=None):
         if int(ts2.step_type) != 2:
             return False
